@@ -1199,7 +1199,7 @@ Theorem ins_row_overflow_refuted :
     parse_reference_a1 (displace_text (DRow s r k) false false q a) = None.
 Proof.
   exists 0, 2, 1, true, (1, 1), row_overflow_witness. vm_compute.
-  repeat split; try discriminate; intro H; discriminate H.
+  repeat split; first [reflexivity | discriminate | (intro H; discriminate H)].
 Qed.
 
 (* the same edit on columns does give "#REF!" *)
